@@ -285,7 +285,7 @@ def units(tier):
 
 def bounds(tier):
     return {'tier': tier,
-            'layers': ('L0,L0c,L2,families under EXPLICIT,AUTOMATIC; L1(W2,K2) under EXPLICIT,IMPLICIT; L1(W2,K1) under AUTOMATIC; L0c under IMPLICIT' if tier == 'quick'
+            'layers': ('L0,L0c,L2,families under EXPLICIT,AUTOMATIC,IMPLICIT; L1(W2,K2) under EXPLICIT,IMPLICIT; L1(W2,K1) under AUTOMATIC' if tier == 'quick'
                        else 'L0,L0c,L1(W3,K2),L2,families under 5 environments')
             + '; X:tagnum/elemtag/membertag/setorder/setchoice/root2/choice/auto1/default under '
             + ('EXPLICIT,IMPLICIT,AUTOMATIC' if tier == 'quick' else 'EXPLICIT,IMPLICIT,AUTOMATIC,EXPLICIT+EI,AUTOMATIC+EI'),
